@@ -155,12 +155,8 @@ func run(tier string) int {
 				var seqs, nt, viol, pruned, opsx int64
 				for it := range ch {
 					name := it.cfg.Name()
-					grp, grpNT, grpSet := "", false, false
-					flush := func() {
-						if grpSet {
-							r.Case(grp, grpNT)
-						}
-					}
+					grp := ""
+					var grpOps [4]storediff.Op
 					pruned += storediff.Enumerate(alpha, it.prefix, L, func(seq []storediff.Op) {
 						v, n := storediff.Run(it.cfg, "", seq, st, nil)
 						isNT := storediff.NonTrivial(seq[:n])
@@ -172,12 +168,15 @@ func run(tier string) int {
 						if perSeqCase {
 							r.Case(name+"|"+strings.Join(storediff.OpStrings(seq), ";"), isNT)
 						} else {
-							g := name + "|" + strings.Join(storediff.OpStrings(seq[:4]), ";")
-							if g != grp {
-								flush()
-								grp, grpNT, grpSet = g, false, true
+							// too many sequences to remember each one: the id is
+							// the (mode, first four ops) group
+							var g [4]storediff.Op
+							copy(g[:], seq)
+							if grp == "" || g != grpOps {
+								grpOps = g
+								grp = name + "|" + strings.Join(storediff.OpStrings(seq[:4]), ";")
 							}
-							grpNT = grpNT || isNT
+							r.Case(grp, isNT)
 						}
 						if v != nil {
 							viol++
@@ -185,9 +184,6 @@ func run(tier string) int {
 								Source: "systematic", OrigLen: len(seq)})
 						}
 					})
-					if !perSeqCase {
-						flush()
-					}
 				}
 				totalMu.Lock()
 				total.Merge(st)
@@ -211,7 +207,7 @@ func run(tier string) int {
 		"length": L, "alphabet": storediff.OpStrings(alpha), "modes": modeNames,
 		"sequences_executed": sysSeqs, "sequences_nontrivial": sysNT, "sequences_stopped_at_violation": sysViol,
 		"branches_pruned_commit_tx_without_session": sysPruned, "ops_executed": sysOpsExecuted,
-		"case_granularity": map[bool]string{true: "one Case per sequence", false: "one Case per (mode, first four ops) group; exact totals are in sequences_executed / sequences_nontrivial"}[perSeqCase],
+		"case_granularity": map[bool]string{true: "one Case per sequence", false: "one Case per sequence, but the id that feeds distinct_nontrivial is the (mode, first four ops) group; the exact count of non-trivial sequences is sequences_nontrivial"}[perSeqCase],
 		"note":             "all sequences of exactly this length are executed; every shorter sequence is a prefix of one of them and every op is compared",
 	})
 	r.Exhaustive = true
@@ -309,12 +305,17 @@ func run(tier string) int {
 	r.Count("commit_content_checks", int(total.CommitContentChecks))
 	r.Count("reopens", int(total.Reopens))
 	r.Count("versioned_compared", int(total.VersionedCompared))
+	r.Count("versioned_compared_latest_version", int(total.VersionedLatest))
+	r.Count("versioned_compared_recent_window", int(total.VersionedRecent))
+	r.Count("versioned_compared_epoch_version", int(total.VersionedEpoch))
+	r.Count("versioned_compared_nonexistent_version", int(total.VersionedNonexistent))
 	r.Count("versioned_reads_of_policy_deletable_versions_not_asserted", int(total.VersionedDeletable))
 	r.Count("policy_deletable_versions_answered_absent", int(total.DeletedVersionsSeen))
 	r.Count("policy_deletable_versions_still_present", int(total.DeletableStillPresent))
 	r.Count("policy_deletable_versions_still_present_and_correct", int(total.DeletableStillCorrect))
 	r.Count("set_failed_gas_limit", int(total.SetFailedGas))
 	r.Count("delete_failed_gas_limit", int(total.DelFailedGas))
+	r.Count("get_refused_gas_limit_not_compared", int(total.GetRefusedGas))
 	r.Count("ops_with_gas_limit_reached", int(total.GasExhaustedOps))
 	r.Count("commit_tx_without_session_skipped", int(total.Inapplicable))
 	r.Count("distinct_model_states", len(total.States))
@@ -328,6 +329,8 @@ func run(tier string) int {
 	r.Gate("twin_commits_compared", tw)
 	r.Gate("reopens", 1000)
 	r.Gate("versioned_compared", 1000)
+	r.Gate("versioned_compared_recent_window", 1000)
+	r.Gate("versioned_compared_epoch_version", 100)
 	r.Gate("policy_deletable_versions_answered_absent", 100)
 	r.Gate("ops_with_gas_limit_reached", 1000)
 	r.Gate("distinct_model_states", 1000)
